@@ -14,8 +14,11 @@ package main
 import (
 	"fmt"
 	"os"
+	"runtime"
 	"strconv"
 	"strings"
+	"sync"
+	"sync/atomic"
 	"time"
 
 	hc "verifharness/heapcommon"
@@ -689,20 +692,23 @@ type exhaustiveStats struct {
 	complete         bool
 }
 
-func exhaustive(m *vlib.Model, res *vlib.Result, maxN int, deadline time.Time) exhaustiveStats {
+func exhaustive(driver string, res *vlib.Result, maxN int, deadline time.Time) exhaustiveStats {
 	st := exhaustiveStats{complete: true}
 	type job struct {
 		base      Case
 		followups []Op
 	}
-	var batch []job
-	flush := func() {
-		if len(batch) == 0 {
-			return
-		}
-		// model: one exchange for the whole batch, follow-ups via save/restore
+	workers := runtime.NumCPU() / 2
+	if workers < 1 {
+		workers = 1
+	}
+	if workers > 8 {
+		workers = 8
+	}
+	// one batch = one model exchange; follow-ups via save/restore
+	runBatch := func(m **vlib.Model, r *vlib.Result, batch []job) {
 		var lines []string
-		if m != nil {
+		if *m != nil {
 			for i, j := range batch {
 				if i > 0 {
 					lines = append(lines, "reset")
@@ -716,17 +722,17 @@ func exhaustive(m *vlib.Model, res *vlib.Result, maxN int, deadline time.Time) e
 			}
 		}
 		var mo []string
-		if m != nil {
+		if *m != nil {
 			var err error
-			mo, err = m.Run(lines)
+			mo, err = (*m).Run(lines)
 			if err != nil {
-				res.ModelMissing = err.Error()
-				m = nil
+				r.ModelMissing = err.Error()
+				*m = nil
 			}
 		}
 		p := 0
 		for i, j := range batch {
-			if m != nil {
+			if *m != nil {
 				if i > 0 {
 					p++
 				}
@@ -735,10 +741,10 @@ func exhaustive(m *vlib.Model, res *vlib.Result, maxN int, deadline time.Time) e
 			for _, o := range j.followups {
 				c := j.base
 				c.Ops = append(append([]Op{}, j.base.Ops...), o)
-				st.followups++
-				res.Evaluations++
-				checkMonitor(c, res)
-				if m != nil {
+				r.Evaluations++
+				r.Dist["exhaustive-followups"]++
+				checkMonitor(c, r)
+				if *m != nil {
 					im := hc.NewImplSafe(j.base)
 					for _, b := range j.base.Ops {
 						im.Apply(b)
@@ -746,75 +752,118 @@ func exhaustive(m *vlib.Model, res *vlib.Result, maxN int, deadline time.Time) e
 					got := []string{im.Apply(o), im.Obs(c.U), im.Dump()}
 					want := mo[p+1 : p+4]
 					p += 4
-					res.Traces++
+					r.Traces++
 					if vlib.FirstDiff(got, want) >= 0 {
 						// re-run as an ordinary case: shrinks and reports
-						check(c, m, res)
-						if !res.HasFailure("correspondence") {
-							res.Fail(vlib.Failure{Source: "correspondence", Kind: c.Kind + "-model-differs-exhaustive",
+						check(c, *m, r)
+						if !r.HasFailure("correspondence") {
+							r.Fail(vlib.Failure{Source: "correspondence", Kind: c.Kind + "-model-differs-exhaustive",
 								What: fmt.Sprintf("impl %q, model %q", got, want), Case: c.Text()})
 						}
 					}
 				}
 			}
 		}
-		batch = batch[:0]
+	}
+	mkJobs := func(seq []int, idx int) []job {
+		n := len(seq)
+		var out []job
+		for variant := 0; variant < 4; variant++ {
+			kind := []string{"heap", "pq"}[variant/2]
+			viaInit := variant%2 == 1
+			c := Case{Kind: kind, Ord: "nat", Ctor: hc.Ctors[(idx+variant)%2], U: n + 1}
+			for i, p := range seq {
+				switch {
+				case kind == "heap" && viaInit:
+					c.Init = append(c.Init, [2]int{2 * p, i + 1})
+				case kind == "heap":
+					c.Ops = append(c.Ops, Op{Name: "push", A: 2 * p, B: i + 1})
+				case viaInit:
+					c.Init = append(c.Init, [2]int{i, 2 * p})
+				default:
+					c.Ops = append(c.Ops, Op{Name: "update", A: i, B: 2 * p})
+				}
+			}
+			// follow-ups: priorities 2p are the existing classes, odd values fall strictly between
+			var fs []Op
+			if kind == "heap" {
+				fs = append(fs, Op{Name: "pop"}, Op{Name: "peek"})
+				for v := -1; v <= 2*n-1; v++ {
+					fs = append(fs, Op{Name: "push", A: v, B: 99})
+				}
+			} else {
+				fs = append(fs, Op{Name: "qpop"}, Op{Name: "qpeek"})
+				for k := 0; k <= n; k++ { // k == n: absent key
+					fs = append(fs, Op{Name: "remove", A: k})
+					for v := -1; v <= 2*n-1; v++ {
+						fs = append(fs, Op{Name: "update", A: k, B: v})
+					}
+				}
+			}
+			out = append(out, job{c, fs})
+		}
+		return out
 	}
 	for n := 0; n <= maxN && st.complete; n++ {
-		weakOrders(n, func(seq []int) {
-			if !st.complete {
-				return
-			}
-			if st.bases%256 == 0 && time.Now().After(deadline) {
-				st.complete = false
-				return
-			}
-			st.bases++
-			for variant := 0; variant < 4; variant++ {
-				kind := []string{"heap", "pq"}[variant/2]
-				viaInit := variant%2 == 1
-				c := Case{Kind: kind, Ord: "nat", Ctor: hc.Ctors[(st.bases+variant)%2], U: n + 1}
-				for i, p := range seq {
-					switch {
-					case kind == "heap" && viaInit:
-						c.Init = append(c.Init, [2]int{2 * p, i + 1})
-					case kind == "heap":
-						c.Ops = append(c.Ops, Op{Name: "push", A: 2 * p, B: i + 1})
-					case viaInit:
-						c.Init = append(c.Init, [2]int{i, 2 * p})
-					default:
-						c.Ops = append(c.Ops, Op{Name: "update", A: i, B: 2 * p})
-					}
+		var seqs [][]int
+		weakOrders(n, func(seq []int) { seqs = append(seqs, append([]int{}, seq...)) })
+		var next int64
+		var timedOut int32
+		var wg sync.WaitGroup
+		results := make([]*vlib.Result, workers)
+		for w := 0; w < workers; w++ {
+			wg.Add(1)
+			results[w] = vlib.NewResult("C05", "")
+			go func(r *vlib.Result) {
+				defer wg.Done()
+				m, err := vlib.StartModel(driver, "heap")
+				if err != nil {
+					m = nil
 				}
-				// follow-ups: priorities 2p are the existing classes, odd values fall strictly between
-				var fs []Op
-				if kind == "heap" {
-					fs = append(fs, Op{Name: "pop"}, Op{Name: "peek"})
-					for v := -1; v <= 2*n-1; v++ {
-						fs = append(fs, Op{Name: "push", A: v, B: 99})
+				defer func() { m.Close() }()
+				for {
+					lo := int(atomic.AddInt64(&next, 16)) - 16
+					if lo >= len(seqs) {
+						return
 					}
-				} else {
-					fs = append(fs, Op{Name: "qpop"}, Op{Name: "qpeek"})
-					for k := 0; k <= n; k++ { // k == n: absent key
-						fs = append(fs, Op{Name: "remove", A: k})
-						for v := -1; v <= 2*n-1; v++ {
-							fs = append(fs, Op{Name: "update", A: k, B: v})
-						}
+					if time.Now().After(deadline) {
+						atomic.StoreInt32(&timedOut, 1)
+						return
 					}
+					hi := lo + 16
+					if hi > len(seqs) {
+						hi = len(seqs)
+					}
+					var batch []job
+					for i := lo; i < hi; i++ {
+						batch = append(batch, mkJobs(seqs[i], i)...)
+					}
+					runBatch(&m, r, batch)
+					r.Dist["exhaustive-bases"] += hi - lo
 				}
-				batch = append(batch, job{c, fs})
+			}(results[w])
+		}
+		wg.Wait()
+		for _, r := range results {
+			res.Evaluations += r.Evaluations
+			res.Traces += r.Traces
+			for k, v := range r.Dist {
+				res.Dist[k] += v
 			}
-			if len(batch) >= 64 {
-				flush()
+			for _, f := range r.Failures {
+				res.Fail(f)
 			}
-		})
-		flush()
-		if st.complete {
+			if r.ModelMissing != "" && driver != "" {
+				res.ModelMissing = r.ModelMissing
+			}
+		}
+		if timedOut != 0 {
+			st.complete = false
+		} else {
 			res.Dist[fmt.Sprintf("exhaustive-n=%d-complete", n)] = 1
 		}
 	}
-	res.Dist["exhaustive-bases"] = st.bases
-	res.Dist["exhaustive-followups"] = st.followups
+	st.bases = res.Dist["exhaustive-bases"]
 	res.Nontrivial += st.bases
 	return st
 }
@@ -910,7 +959,11 @@ func main() {
 		res.Count("big-pq-10000-monitor-only")
 		res.Case(c.Key(), stats(c, res), nil)
 		checkMonitor(c, res)
-		st := exhaustive(m, res, 7, time.Now().Add(time.Duration(env.BudgetMs)*time.Millisecond/2))
+		drv := env.Driver
+		if m == nil {
+			drv = ""
+		}
+		st := exhaustive(drv, res, 7, time.Now().Add(time.Duration(env.BudgetMs)*time.Millisecond/2))
 		res.Exhaustive = st.complete
 	}
 	res.Write(env.Out)
